@@ -1,5 +1,5 @@
 //@ unit env_caches
-//@ serves C16
+//@ serves C16 C13
 //@ must_verify OpPointer::new OpPointer::set_path Ops::new Ops::entry Entry::get_pointer_or_else Checker::new Checker::with_working_dir Checker::with_shape_cache Checker::result Environment::get_ops_for_path Environment::add_ops_for_path_and_content Environment::get_cached_path_val Environment::update_path_val Environment::get_out_lock_for_path Environment::set_out_lock_for_path Environment::reset_out_lock_for_path lemma_lookup_is_a_fresh_computation lemma_stdlib_entry_is_fresh lemma_order_independent lemma_idempotent lemma_failure_leaves_no_trace lemma_value_cache_and_locks_are_exact
 // C16 (narrow kernel) - cache coherence of the shared Environment: opcode cache, import value cache, output locks.
 // The property itself ("a file builds the same alone, in any batch, in any order, any number of times") is a
